@@ -187,46 +187,6 @@ fn judge(op: &DiffOp, plain: &[PlainChange], inl: &[InlineCh]) -> Result<(), Fai
     Ok(())
 }
 
-/// Ill-formed UTF-8: invalid lead bytes, truncated 2/3/4-byte characters, a
-/// lone continuation byte, an encoded surrogate, an overlong encoding.
-const ILL_FORMED: [&[u8]; 9] = [
-    b"\xff",
-    b"\xfe\xff",
-    b"\xf0\x90\x80",
-    b"\xf0\x90\x81",
-    b"\xe2\x82",
-    b"\xc3",
-    b"\x80",
-    b"\xed\xa0\x80",
-    b"\xc0\xaf",
-];
-
-/// Splices 1..=3 ill-formed sequences into `text` (valid UTF-8) at character
-/// boundaries; the same few sequences are used on both sides of a case so that
-/// they also take part in equal words.
-fn splice_ill_formed(rng: &mut Rng, text: &[u8]) -> Vec<u8> {
-    let s = match std::str::from_utf8(text) {
-        Ok(s) => s,
-        Err(_) => return text.to_vec(),
-    };
-    let mut cuts: Vec<usize> = s.char_indices().map(|(i, _)| i).collect();
-    cuts.push(s.len());
-    let mut at: Vec<usize> = (0..1 + rng.usize(3)).map(|_| cuts[rng.usize(cuts.len())]).collect();
-    at.sort();
-    let mut out = Vec::with_capacity(text.len() + 12);
-    let mut last = 0;
-    for a in at {
-        out.extend_from_slice(&text[last..a]);
-        out.extend_from_slice(ILL_FORMED[[0usize, 2, 3, 6][rng.usize(4)]]);
-        if rng.chance(1, 2) {
-            out.extend_from_slice(ILL_FORMED[rng.usize(ILL_FORMED.len())]);
-        }
-        last = a;
-    }
-    out.extend_from_slice(&text[last..]);
-    out
-}
-
 pub struct C16;
 
 const F_EXP0: usize = 0;
@@ -499,8 +459,8 @@ impl Prop for C16 {
         // [u8] texts: a third of them with ill-formed UTF-8 (the reason to diff
         // bytes at all) spliced in at character boundaries
         if text.bytes && text.old.len() < 60_000 && rng.chance(1, 3) {
-            text.old = splice_ill_formed(rng, &text.old);
-            text.new = splice_ill_formed(rng, &text.new);
+            text.old = crate::gen::splice_ill_formed(rng, &text.old);
+            text.new = crate::gen::splice_ill_formed(rng, &text.new);
         }
         // str texts: a fifth through a case-insensitive user type, with the
         // case of some letters of the new text flipped
